@@ -260,6 +260,19 @@ func (c *Client) Wait() error {
 	return c.group.Wait()
 }
 
+// ErrTerminated is returned by API calls which were interrupted by the client's
+// termination (Close, DISCONNECT from the gateway) before they completed.
+var ErrTerminated = errors.New("client terminated")
+
+// terminated waits until the client is terminated and returns the reason: an
+// interrupted API call did not succeed.
+func (c *Client) terminated() error {
+	if err := c.group.Wait(); err != nil {
+		return err
+	}
+	return ErrTerminated
+}
+
 // Close closes the connection with the MQTT-SN gateway. The client sends
 // a DISCONNECT packet before closing the connection.
 func (c *Client) Close() error {
@@ -334,7 +347,7 @@ func (c *Client) Connect() error {
 				return err
 			}
 		case <-c.groupCtx.Done():
-			return c.group.Wait()
+			return c.terminated()
 		}
 	}
 
@@ -356,7 +369,7 @@ func (c *Client) Register(topic string) error {
 	case <-transaction.Done():
 		return transaction.Err()
 	case <-c.groupCtx.Done():
-		return c.group.Wait()
+		return c.terminated()
 	}
 }
 
@@ -374,7 +387,7 @@ func (c *Client) subscribe(topicName string, topicIDType uint8, topicID uint16, 
 	case <-transaction.Done():
 		return transaction.Err()
 	case <-c.groupCtx.Done():
-		return c.group.Wait()
+		return c.terminated()
 	}
 }
 
@@ -409,7 +422,7 @@ func (c *Client) unsubscribe(topicName string, topicIDType uint8, topicID uint16
 	case <-transaction.Done():
 		return transaction.Err()
 	case <-c.groupCtx.Done():
-		return c.group.Wait()
+		return c.terminated()
 	}
 }
 
@@ -458,7 +471,7 @@ func (c *Client) publish(topicIDType uint8, topicID uint16, qos uint8, retain bo
 	case <-transaction.Done():
 		return transaction.Err()
 	case <-c.groupCtx.Done():
-		return c.group.Wait()
+		return c.terminated()
 	}
 }
 
@@ -489,6 +502,19 @@ func (c *Client) PublishPredefined(topicID uint16, payload []byte, qos uint8, re
 
 // Ping sends a PING packet to the MQTT-SN gateway.
 func (c *Client) Ping() error {
+	err := c.ping()
+	if err == errPingInterrupted {
+		return c.terminated()
+	}
+	return err
+}
+
+var errPingInterrupted = errors.New("ping interrupted")
+
+// ping returns errPingInterrupted if the client is terminated before PINGRESP
+// is received. Unlike Ping, it does not wait for the client's goroutines, so it
+// can be called from one of them (the keep-alive loop).
+func (c *Client) ping() error {
 	transaction := newPingTransaction(c)
 	ping := pkts1.NewPingreq(nil)
 	c.transactions.StoreByType(pkts.PINGREQ, transaction)
@@ -520,7 +546,7 @@ func (c *Client) Sleep(duration time.Duration) error {
 	case <-transaction.Done():
 		return transaction.Err()
 	case <-c.groupCtx.Done():
-		return c.group.Wait()
+		return c.terminated()
 	}
 }
 
